@@ -183,7 +183,12 @@ func c01Batch(c *Ctx, cases []c01Case) {
 		case strings.Contains(all, "client_.Subscribe undefined") || (strings.Contains(all, "not enough return values") && cs.Cfg.ClientGetter != ""):
 			sig = "subscription-with-client-getter" // F-01g
 		case strings.Contains(all, "duplicate method") || strings.Contains(all, "does not implement") || strings.Contains(all, "ambiguous selector"):
-			sig = "fragment-embedding-breaks-interface" // F-01b
+			sig = "interface-method-set-mismatch"
+			if c01HasNamedSpreadOrFlatten(cs.Ops) {
+				// F-01b is about fragment structs EMBEDDED into implementations (named spreads) and about flatten; a
+				// program with inline fragments only cannot be an instance of it
+				sig = "fragment-embedding-breaks-interface"
+			}
 		case strings.Contains(all, "invalid recursive type"):
 			sig = "recursive-input-without-pointer" // F-01h
 		case strings.Contains(all, "redeclared in this block"):
@@ -206,4 +211,20 @@ func c01EventsModel(c *Ctx, cs c01Case, out *GenOut) {
 		return
 	}
 	c09Events(c, c09Case{Leg: "c01", Seed: cs.Seed, Schema: cs.Schema, Ops: cs.Ops, Cfg: cs.Cfg}, out)
+}
+
+var c01NamedSpreadRe = regexp.MustCompile(`\.\.\.\s*([A-Za-z_][A-Za-z0-9_]*)`)
+
+func c01HasNamedSpreadOrFlatten(ops map[string]string) bool {
+	for _, t := range ops {
+		if strings.Contains(t, "flatten") {
+			return true
+		}
+		for _, m := range c01NamedSpreadRe.FindAllStringSubmatch(t, -1) {
+			if m[1] != "on" {
+				return true
+			}
+		}
+	}
+	return false
 }
